@@ -70,13 +70,44 @@
 	 ((n) == IOV_P6(L, N, a) || (n) < IOV_P7(L, N, a)) ? VP_MIN(6u, N(a)) : \
 	 ((n) == IOV_P7(L, N, a) || (n) < IOV_P8(L, N, a)) ? VP_MIN(7u, N(a)) : N(a))
 
+
+/* the described byte sequence fits the address space: no prefix sum wraps */
+#define VIOV_LENMAX (SIZE_MAX >> 3)
+#define IOV_NOWRAP_ENT(a, i) ((i) >= (a)->a_nio || (a)->a_iov[i].iov_len <= VIOV_LENMAX)
+#define IOV_NOWRAP(a)                                                   \
+	(IOV_NOWRAP_ENT(a, 0) && IOV_NOWRAP_ENT(a, 1) && IOV_NOWRAP_ENT(a, 2) && \
+	    IOV_NOWRAP_ENT(a, 3) && IOV_NOWRAP_ENT(a, 4) && IOV_NOWRAP_ENT(a, 5) && \
+	    IOV_NOWRAP_ENT(a, 6) && IOV_NOWRAP_ENT(a, 7))
+
+/* ---- loop invariants of nni_aio_iov_advance (woven) ---------------------
+ * vp_in / vp_n0: snapshot of *aio and n taken by a ghost statement woven at
+ * the function entry.  NNI_AIO_MAX_IOV is a constant, so "for every slot" is
+ * written out over the 8 slots (VP_ALL8). */
+#define VP_ALL8(F) (F(0u) && F(1u) && F(2u) && F(3u) && F(4u) && F(5u) && F(6u) && F(7u))
+/* accessors: function-entry snapshot */
+#define IOV_SL(a, i) (vp_in.a_iov[i].iov_len)
+#define IOV_SB(a, i) ((char *) vp_in.a_iov[i].iov_buf)
+#define IOV_SN(a) (vp_in.a_nio)
+#define ADV_GONE (vp_in.a_nio - aio->a_nio) /* entries dropped so far */
+#define ADV_CUR_IS_IN(j, k) (aio->a_iov[j].iov_len == vp_in.a_iov[(k) & 7u].iov_len && aio->a_iov[j].iov_buf == vp_in.a_iov[(k) & 7u].iov_buf)
+#define ADV_CUR_IS_NIL(j) (aio->a_iov[j].iov_len == 0 && aio->a_iov[j].iov_buf == NULL)
+/* outer loop head: slot j holds the entry that was ADV_GONE places further back, vacated slots are (NULL,0), unused slots untouched */
+#define ADV_OUT_ENT(j)                                                  \
+	((j) < aio->a_nio ? ADV_CUR_IS_IN(j, (j) + ADV_GONE)                \
+	 : (j) < vp_in.a_nio ? ADV_CUR_IS_NIL(j) : ADV_CUR_IS_IN(j, j))
+/* inner (shift) loop head: slots below i already moved down by one more place */
+#define ADV_IN_ENT(j)                                                   \
+	((j) < i ? ADV_CUR_IS_IN(j, (j) + ADV_GONE)                         \
+	 : (j) <= aio->a_nio ? ADV_CUR_IS_IN(j, (j) + ADV_GONE - 1u)        \
+	 : (j) < vp_in.a_nio ? ADV_CUR_IS_NIL(j) : ADV_CUR_IS_IN(j, j))
+
 /* shape precondition: the aio exists, the count respects the array, every
  * non-empty entry in use names an existing buffer of that length */
 #define IOV_ENT_PRE(a, i)                                               \
 	((i) >= (a)->a_nio || (a)->a_iov[i].iov_len == 0 ||                 \
 	    __CPROVER_is_fresh((a)->a_iov[i].iov_buf, (a)->a_iov[i].iov_len))
 #define IOV_PRE(a)                                                      \
-	(__CPROVER_is_fresh((a), sizeof(nni_aio)) && (a)->a_nio <= VIOV_MAX && \
+	(__CPROVER_is_fresh((a), sizeof(nni_aio)) && (a)->a_nio <= VIOV_MAX && IOV_NOWRAP(a) && \
 	    IOV_ENT_PRE(a, 0) && IOV_ENT_PRE(a, 1) && IOV_ENT_PRE(a, 2) &&  \
 	    IOV_ENT_PRE(a, 3) && IOV_ENT_PRE(a, 4) && IOV_ENT_PRE(a, 5) &&  \
 	    IOV_ENT_PRE(a, 6) && IOV_ENT_PRE(a, 7))
